@@ -52,15 +52,47 @@ class _NoMonitor:
 
 def execute_run(run, scdir, idx, note_fd, out_name="out.pqr", outdir=None, use_monitor=True,
                 ns_cache=None):
-    """One pdb2pqr invocation under seams + monitor.  Returns an observation dict."""
-    from sim import monitor, seams
+    """One pdb2pqr invocation under seams + monitor.  Returns an observation dict.
+
+    run["ambient"] (optional) sets things the output must NOT depend on: simulated
+    clock, cwd, relative vs absolute paths, TZ / LANG, names of the input and output
+    files, junk already present in the output directory."""
+    from sim import clock, monitor, seams
 
     cfg = run["cfg"]
     entry = run.get("entry", "run_pdb2pqr")
     faults = run.get("faults") or []
+    amb = run.get("ambient") or {}
     indir = os.path.join(scdir, f"in-{idx}")
     outdir = outdir or os.path.join(scdir, "out")
+    if amb.get("in_name") and cfg.get("input_mode", "file") == "file":
+        suffix = ".cif" if cfg["item"].endswith(".cif") else ".pdb"
+        cfg = dict(cfg, input_name=amb["in_name"] + suffix)
+    if amb.get("out_name"):
+        out_name = amb["out_name"]
     argv, paths = corpus.materialise(cfg, indir, outdir, out_name)
+    if amb.get("junk"):
+        for name in ("out.log", "out.pdb", "out.in", "leftover.tmp", out_name + ".bak"):
+            with open(os.path.join(outdir, name), "w") as fh:
+                fh.write("junk left by an earlier program\n")
+    old_cwd = os.getcwd()
+    old_env = {k: os.environ.get(k) for k in ("TZ", "LANG", "LC_ALL")}
+    if amb.get("clock") is not None:
+        clock.set_epoch(amb["clock"])
+    if amb.get("tz"):
+        os.environ["TZ"] = amb["tz"]
+        import time as _t
+        _t.tzset()
+    if amb.get("lang"):
+        os.environ["LANG"] = amb["lang"]
+        os.environ["LC_ALL"] = amb["lang"]
+    if amb.get("cwd") == "scratch" or amb.get("rel"):
+        os.chdir(scdir)
+        if amb.get("rel"):
+            pre = os.path.realpath(scdir) + os.sep
+            argv = [a.replace(pre, "") if isinstance(a, str) else a for a in argv]
+    elif amb.get("cwd") == "root":
+        os.chdir("/")
     pkg = world.REPO_PKG_DIR
     datdir = os.path.join(pkg, "dat")
     redirect = {}
@@ -125,6 +157,15 @@ def execute_run(run, scdir, idx, note_fd, out_name="out.pqr", outdir=None, use_m
         net.uninstall()
         seam.uninstall()
         sys.argv = old_argv
+        os.chdir(old_cwd)
+        for k, v in old_env.items():
+            if v is None:
+                os.environ.pop(k, None)
+            else:
+                os.environ[k] = v
+        if amb.get("tz"):
+            import time as _t
+            _t.tzset()
         if entry == "cli":
             logging.shutdown()
             logging.disable(logging.CRITICAL)
